@@ -29,18 +29,23 @@ EDITS = ["comments", "blank lines", "indentation", "token spacing", "CRLF", "wra
 N_EDITS = len(BASES) * 2 ** len(EDITS)
 
 
-def render(stmts, mask=0):
-    e = [(mask >> i) & 1 for i in range(len(EDITS))]
-    comments, blank, indent, spacing, crlf, wrap, commas, semis, end = e
+def render(stmts, mask=0, only=None, local_mask=0):
+    """mask: edits applied everywhere; local_mask: edits applied at the statements in ``only`` in addition"""
+    g = [(mask >> i) & 1 for i in range(len(EDITS))]
+    crlf, end = g[4], g[8]
     eol = "\r\n" if crlf else "\n"
-    sep = "  \t " if spacing else " "
-    ind = "   \t" if indent else ""
     out = []
-    if blank:
+    if g[1]:
         out.append("")
-    if comments:
+    if g[0]:
         out.append("# leading comment; Decay X")
     for k, st in enumerate(stmts):
+        e = list(g)
+        if only is not None and k in only:
+            e = [a | ((local_mask >> i) & 1) for i, a in enumerate(g)]
+        comments, blank, indent, spacing, _, wrap, commas, semis, _ = e
+        sep = "  \t " if spacing else " "
+        ind = "   \t" if indent else ""
         toks = []
         for t in st:
             if isinstance(t, tuple):
@@ -61,10 +66,34 @@ def render(stmts, mask=0):
         if comments and k % 3 == 1:
             out.append(ind + "#own-line comment")
     if end:
-        out.append(ind + "End")
-        if blank:
+        out.append(("   \t" if g[2] else "") + "End")
+        if g[1]:
             out.append("")
     return eol.join(out) + eol
+
+
+LOCAL_EDITS = [0, 1, 2, 3, 5, 6, 7]            # the edits that act on one statement
+N_LOCAL = len(BASES) * len(LOCAL_EDITS) * 16 * len(EDITS)
+
+
+def body_edits_local(sel: int) -> bool:
+    """thorough tier: one edit applied at one statement only (every statement position), on top of one edit applied everywhere"""
+    b, rest = sel % len(BASES), sel // len(BASES)
+    le, rest = LOCAL_EDITS[rest % len(LOCAL_EDITS)], rest // len(LOCAL_EDITS)
+    k, ge = rest % 16, rest // 16
+    stmts = BASES[b]
+    if k >= len(stmts):
+        return True
+    base = snapshot(parse(render(stmts, 0)))
+    text = render(stmts, 1 << ge if ge != le else 0, only={k}, local_mask=1 << le)
+    try:
+        got = snapshot(parse(text))
+    except Exception as ex:
+        return fail(f"edit {EDITS[le]!r} at statement {k} (+ {EDITS[ge]!r} everywhere) on base {b}: {type(ex).__name__}: {str(ex)[:200]}; text {text!r}")
+    if got != base:
+        diff = [(x, y) for x, y in zip(got, base) if x != y][:2]
+        return fail(f"edit {EDITS[le]!r} at statement {k} (+ {EDITS[ge]!r} everywhere) on base {b} changes the answers: {diff}; text {text!r}")
+    return True
 
 
 def body_edits(sel: int) -> bool:
